@@ -31,7 +31,9 @@ pub fn build_source(case: &Value) -> (Vec<u8>, String) {
     let mut content = String::new();
     if used.iter().any(|u| u == "gs") { content += "/GS1 gs "; }
     if used.iter().any(|u| u == "font") { content += "BT /R1 12 Tf (hi) Tj ET "; }
-    if used.iter().any(|u| u == "xobject") { content += "q /R1 Do Q "; }
+    // two forms: the first refers to object 6 through an entry the typed model does not know (copied as a plain reference), the
+    // second through a typed entry of its resources (copied as a typed value) and lists itself among its own XObjects
+    if used.iter().any(|u| u == "xobject") { content += "q /R1 Do Q q /R2 Do Q "; }
     if used.iter().any(|u| u == "colorspace") { content += "/CS1 cs 0.5 sc "; }
     content += "1 2 m 3 4 l S";
     let o = d.stream(4, 0, "", content.as_bytes(), None, false);
@@ -40,7 +42,7 @@ pub fn build_source(case: &Value) -> (Vec<u8>, String) {
     if res("gs") != 0 { rs += "/ExtGState << /GS1 6 0 R /GSunused << /LW 9 >> >> "; }
     // the font and the XObject deliberately share one name: the categories are separate name spaces
     if res("font") != 0 { rs += &format!("/Font << /R1 {} 0 R >> ", 10 + res("font")); }
-    if res("xobject") != 0 { rs += "/XObject << /R1 8 0 R /Xunused 8 0 R >> "; }
+    if res("xobject") != 0 { rs += "/XObject << /R1 8 0 R /R2 9 0 R /Xunused 8 0 R >> "; }
     if res("colorspace") != 0 { rs += "/ColorSpace << /CS1 [/ICCBased 7 0 R] >> "; }
     let o = d.obj(5, 0, format!("<< {} >>", rs).as_bytes());
     e.push((5, XEntry::InUse { off: o, gen: 0 }));
@@ -60,8 +62,10 @@ pub fn build_source(case: &Value) -> (Vec<u8>, String) {
                 // the LZW text is padded to whole predictor rows; the decoder stops at its end-of-data code
                 crate::refcodec::zlib(&crate::refcodec::png_filter(&padded, 7, 1, &[2])) }),
     };
-    let o = d.stream(8, 0, &format!("/Type /XObject /Subtype /Form /BBox [0 0 9 9] {}", fdict), &fdata, None, false);
+    let o = d.stream(8, 0, &format!("/Type /XObject /Subtype /Form /BBox [0 0 9 9] /OC 6 0 R {}", fdict), &fdata, None, false);
     e.push((8, XEntry::InUse { off: o, gen: 0 }));
+    let o = d.stream(9, 0, "/Type /XObject /Subtype /Form /BBox [0 0 9 9] /Resources << /Properties << /MC0 6 0 R >> /XObject << /Self 9 0 R >> >>", b"0 0 1 1 re f", None, false);
+    e.push((9, XEntry::InUse { off: o, gen: 0 }));
     for k in 1..=n {
         let refs: Vec<String> = ids(&edges[k as usize - 1]).iter().map(|r| format!("{} 0 R", 10 + r)).collect();
         // every graph object is a loadable font dictionary so that it can sit behind /F1
